@@ -8,6 +8,15 @@ ApproximateGP whitened / unwhitened) and on the Lean state machine (drivers/C03.
   (b) every call `model(x)` is compared with a FRESHLY constructed model of the same architecture carrying
       the same state_dict, data, mode and active settings                       -> difference = ctx.fail
 The histories are shrunk (ops dropped / settings cells simplified while the divergence persists).
+
+A settings cell is a bit mask over the prediction-relevant settings (`SETTING_BITS`, same order as
+`CacheSM.settingNames`); the named cells P0..P9 / Q1 / Q2 are the masks of `LEGACY`, any other mask is the token
+`C<mask>`.  Besides the covering windows there are (i) *settings-pair* histories `eval; predict[a]; predict[b]` for
+cells a, b that differ in exactly one setting, both orders, every model kind, and (ii) *two-object* histories: a
+sibling model is constructed from the SAME argument tensors (train inputs / targets, inducing points, fixed noise),
+`@A` / `@B` switch the object the following ops are applied to, and the observed object must keep answering like
+its own fresh twin; (iii) the model returned by `get_fantasy_model` is itself called under a settings pair and
+compared with a second, freshly made fantasy model.
 """
 import contextlib
 import itertools
@@ -24,17 +33,22 @@ from lib import common as C
 ID = "C03"
 PROP_MODULES = ["GPVerif.Props.C03"]
 BUILD_TARGETS = ["GPVerif.Props.C03", "GPVerif.Gen.CacheTable"]
-RULE = ("operation histories over {predict x 6 exact-path settings cells, predict x 2 accuracy-degrading cells (truncated Lanczos root / "
+RULE = ("operation histories over {predict x 12 named exact-path settings cells (+ every pair of cells that differ in exactly one of the 8 "
+        "prediction-relevant settings, both orders, around the {default, single-setting} bases in quick / all bases of <= 3 settings in "
+        "thorough), predict x 2 accuracy-degrading cells (truncated Lanczos root / "
         "2-iteration CG; own output not compared, every later exact-path call that does not legitimately read the degraded entry is), prior-mode call, train(), eval(), optimiser step "
         "(training mode only), set_train_data (inputs+targets / targets only / inputs only), load_state_dict (full / old-format dict "
-        "without updated_strategy / partial strict=False), get_fantasy_model, backward through a non-detached prediction} "
+        "without updated_strategy / partial strict=False), get_fantasy_model (the returned model is called under a settings pair and compared "
+        "with a second fantasy model), backward through a non-detached prediction, and the same ops applied to a SIBLING object built from "
+        "the same argument tensors} "
         "on 5 model kinds; quick: windows of a de Bruijn sequence (every ordered triple of op kinds occurs, per kind) + all "
         "histories to length 5 on the Lean model; thorough: all histories of length <= 4 over the 9 op kinds + sampled long ones; "
         "distinct = (kind, op tokens); non-trivial = at least one compared call was answered with a cache entry created by an "
         "earlier op")
 EXHAUSTIVE = False
-TRUSTED = ["translator harness/translate/g2_cache_table.py (Python ast -> invalidation table)",
-           "hand-written read/create sets of a call per strategy class and settings cell (CacheSM.call), validated by the key correspondence",
+TRUSTED = ["translator harness/translate/g2_cache_table.py (Python ast -> invalidation table and, by symbolic execution of the prediction "
+           "strategies' call graph, the read/create/pop list of a prediction per strategy class and settings cell)",
+           "hand-written read sets of a *variational* call (CacheSM.varReads), validated by the key correspondence",
            "modelled not verified: nn.Module.train / load_state_dict recursion over submodules, torch autograd hooks, copy.deepcopy"]
 ASSUMPTIONS = ["nn.Module.train(mode) / load_state_dict visit every submodule and call the gpytorch overrides",
                "a grad_fn hook fires when a backward pass reaches that node",
@@ -46,11 +60,34 @@ ASSUMPTIONS = ["nn.Module.train(mode) / load_state_dict visit every submodule an
 
 GEN = os.path.join(C.LEAN_DIR, "GPVerif", "Gen", "CacheTable.lean")
 KINDS = ["exact", "kiss", "sgpr", "svgp", "usvgp"]
-CELLS = ["default", "fast_pred_var", "eager_kernels", "cg", "no_detach", "skip_var", "degraded_root", "degraded_cg",
-         "lazy_joint", "trace_mode"]
-TAINT = {"Q1": 6, "Q2": 7}   # accuracy-degrading predict ops: own output not compared
+# settings cells = bit masks; bit i = setting i of CacheSM.settingNames, bit 8 = accuracy-degrading variant
+SETTING_BITS = ["fast_pred_var", "fast_pred_samples", "eager_kernels", "cg", "no_detach", "skip_var", "lazy_joint", "trace_mode"]
+FPV, FPS, EAGER, NOCHOL, KEEPGRAPH, SKIP, LAZYSLICE, TRACE, DEGRADED = (1 << i for i in range(9))
+LEGACY = {"P0": 0, "P1": FPV, "P2": EAGER, "P3": NOCHOL, "P4": KEEPGRAPH, "P5": SKIP, "P8": LAZYSLICE, "P9": TRACE,
+          "Q1": FPV | NOCHOL | DEGRADED, "Q2": NOCHOL | DEGRADED}
+LEGACY_OF = {v: k for k, v in LEGACY.items()}
+Q1, Q2 = LEGACY["Q1"], LEGACY["Q2"]   # accuracy-degrading predict ops: own output not compared
+
+
+def cell_mask(t):
+    """predict token -> settings mask"""
+    return LEGACY[t] if t in LEGACY else int(t[1:])
+
+
+def cell_token(mask):
+    return LEGACY_OF.get(mask, f"C{mask}")
+
+
+def cell_name(mask):
+    if mask == Q1:
+        return "degraded_root"
+    if mask == Q2:
+        return "degraded_cg"
+    return "+".join(n for i, n in enumerate(SETTING_BITS) if mask >> i & 1) or "default"
+
+
 OPKINDS = ["P", "R", "T", "E", "S", "D", "L", "F", "B"]
-OPNAMES = {"P": "predict", "Q": "predict", "R": "prior_predict", "T": "train", "E": "eval", "S": "step", "D": "set_train_data",
+OPNAMES = {"P": "predict", "Q": "predict", "C": "predict", "@": "switch", "R": "prior_predict", "T": "train", "E": "eval", "S": "step", "D": "set_train_data",
            "L": "load_state_dict", "F": "get_fantasy_model", "B": "backward"}
 TOL, TOL_CG, CG_ONLY_MAX = 1e-8, 2e-4, 1e-2
 _state = {}
@@ -77,53 +114,63 @@ def _setup_torch():
     warnings.simplefilter("ignore")
 
 
-def cell_ctx(c):
+def cell_ctx(mask):
     from gpytorch import settings as S
     st = contextlib.ExitStack()
-    if c == 1:
-        st.enter_context(S.fast_pred_var())
-    elif c == 2:
+    deg = bool(mask & DEGRADED)
+    if mask & FPV:
+        # degraded: truncated Lanczos root (rank 2, one probe vector) behind fast_pred_var; the solves stay tight
+        st.enter_context(S.fast_pred_var(True, num_probe_vectors=1) if deg else S.fast_pred_var())
+    if mask & FPS:
+        st.enter_context(S.fast_pred_samples())
+    if mask & EAGER:
         st.enter_context(S.lazily_evaluate_kernels(False))
-    elif c == 3:
+    if mask & NOCHOL:
         st.enter_context(S.max_cholesky_size(0))
-        st.enter_context(S.cg_tolerance(1e-10))
-        st.enter_context(S.eval_cg_tolerance(1e-10))
-        st.enter_context(S.max_cg_iterations(30))
-    elif c == 4:
+        if deg and not mask & FPV:     # CG stopped after two iterations at tolerance 1
+            st.enter_context(S.cg_tolerance(1.0))
+            st.enter_context(S.eval_cg_tolerance(1.0))
+            st.enter_context(S.max_lanczos_quadrature_iterations(2))   # linear_cg insists on max_tridiag_iter <= max_iter
+            st.enter_context(S.max_cg_iterations(2))
+        else:
+            if deg:
+                st.enter_context(S.max_root_decomposition_size(2))
+            st.enter_context(S.cg_tolerance(1e-10))
+            st.enter_context(S.eval_cg_tolerance(1e-10))
+            st.enter_context(S.max_cg_iterations(30))
+    if mask & KEEPGRAPH:
         st.enter_context(S.detach_test_caches(False))
-    elif c == 5:
+    if mask & SKIP:
         st.enter_context(S.skip_posterior_variances())
-    elif c == 6:    # Q1: truncated Lanczos root (rank 2, one probe vector) behind fast_pred_var; the solves stay tight
-        st.enter_context(S.fast_pred_var(True, num_probe_vectors=1))
-        st.enter_context(S.max_cholesky_size(0))
-        st.enter_context(S.max_root_decomposition_size(2))
-        st.enter_context(S.cg_tolerance(1e-10))
-        st.enter_context(S.eval_cg_tolerance(1e-10))
-        st.enter_context(S.max_cg_iterations(30))
-    elif c == 8:    # the joint covariance is sliced lazily instead of row-evaluated
+    if mask & LAZYSLICE:    # the joint covariance is sliced lazily instead of row-evaluated
         st.enter_context(S.max_eager_kernel_size(0))
-    elif c == 9:    # generic kernel path / dense assembly in the variational strategy
+    if mask & TRACE:        # generic kernel path / dense assembly in the variational strategy
         st.enter_context(S.trace_mode(True))
-    elif c == 7:    # Q2: CG stopped after two iterations at tolerance 1
-        st.enter_context(S.max_cholesky_size(0))
-        st.enter_context(S.cg_tolerance(1.0))
-        st.enter_context(S.eval_cg_tolerance(1.0))
-        st.enter_context(S.max_lanczos_quadrature_iterations(2))   # linear_cg insists on max_tridiag_iter <= max_iter
-        st.enter_context(S.max_cg_iterations(2))
     return st
 
 
-def build(kind, x, y):
+def initial_inducing():
+    import torch
+    return torch.linspace(0.05, 0.95, 4).unsqueeze(-1)
+
+
+def build(kind, x, y, Z=None, noise=None):
+    """`Z`: the tensor handed to the constructor as initial inducing points; `noise`: fixed observation noise (kind exact)"""
     import torch
     import gpytorch
     K = gpytorch.kernels
+    if Z is None:
+        Z = initial_inducing()
 
     class _Ex(gpytorch.models.ExactGP):
         def forward(s, x):
             return gpytorch.distributions.MultivariateNormal(s.mean_module(x), s.covar_module(x))
 
     if kind in ("exact", "kiss", "sgpr"):
-        lik = gpytorch.likelihoods.GaussianLikelihood()
+        if noise is not None:
+            lik = gpytorch.likelihoods.FixedNoiseGaussianLikelihood(noise=noise, learn_additional_noise=True)
+        else:
+            lik = gpytorch.likelihoods.GaussianLikelihood()
         m = _Ex(x, y, lik)
         m.mean_module = gpytorch.means.ConstantMean()
         if kind == "exact":
@@ -132,13 +179,11 @@ def build(kind, x, y):
             m.covar_module = K.ScaleKernel(K.GridInterpolationKernel(K.RBFKernel(), grid_size=10, num_dims=1,
                                                                     grid_bounds=[(-0.3, 1.3)]))
         else:
-            m.covar_module = K.InducingPointKernel(K.ScaleKernel(K.RBFKernel()),
-                                                   inducing_points=torch.linspace(0.05, 0.95, 4).unsqueeze(-1), likelihood=lik)
+            m.covar_module = K.InducingPointKernel(K.ScaleKernel(K.RBFKernel()), inducing_points=Z, likelihood=lik)
         return m
 
     class _SV(gpytorch.models.ApproximateGP):
         def __init__(s):
-            Z = torch.linspace(0.05, 0.95, 4).unsqueeze(-1)
             vd = gpytorch.variational.CholeskyVariationalDistribution(4)
             cls = gpytorch.variational.VariationalStrategy if kind == "svgp" else gpytorch.variational.UnwhitenedVariationalStrategy
             super().__init__(cls(s, Z, vd, learn_inducing_locations=True))
@@ -187,13 +232,16 @@ def new_params(sd, g):
 
 
 def parse_ops(tokens):
-    """'P3' -> ('P', 3); other tokens -> (tok,)"""
+    """'P3' / 'C35' -> ('P', mask); 'Q1' -> ('Q', mask); 'D1' -> ('D', 1); '@A' -> ('@', 'A'); other tokens -> (tok,)"""
     out = []
     for t in tokens:
-        if t[0] in "PQ":
-            out.append((t[0], int(t[1])))
+        if t[0] in "PQC":
+            m = cell_mask(t)
+            out.append(("Q" if m & DEGRADED else "P", m))
         elif t[0] in "DL":
             out.append((t[0], int(t[1]) if len(t) > 1 else 0))
+        elif t[0] == "@":
+            out.append(("@", t[1]))
         else:
             out.append((t[0],))
     return out
@@ -202,28 +250,51 @@ def parse_ops(tokens):
 def tok(op):
     """the token the Lean driver understands"""
     if op[0] in "PQ":
-        return f"{op[0]}{op[1]}"
+        return cell_token(op[1])
     if op[0] == "D":
         return ("D", "Dt", "Di")[op[1]]
+    if op[0] == "@":
+        return "@" + op[1]
     return op[0]
 
 
 D_VARIANTS = ["D", "D1", "D2"]      # set_train_data(inputs, targets) / (targets=…) only / (inputs=…) only
 L_VARIANTS = ["L", "L1", "L2"]      # load_state_dict: full / old-format dict (no `updated_strategy`) / partial, strict=False
 
+# settings pairs under which the model returned by get_fantasy_model is called: (a, b) differ in exactly one setting
+# (max_cholesky_size(0) is left out: the fantasy strategy's caches are Cholesky updates)
+_FBITS = [FPV, FPS, EAGER, KEEPGRAPH, SKIP, LAZYSLICE, TRACE]
+FANTASY_PAIRS = sorted({(x, y) for b_ in [0] + _FBITS for bit in _FBITS for (x, y) in ((b_, b_ ^ bit), (b_ ^ bit, b_))})
+
+
+def memo_name(key, val):
+    """name of a `_memoize_cache` entry; the `(inside_root, None)` representation of a two-representation entry
+    (built under fast_pred_samples) is reported under its own name, like the Lean model does"""
+    name = key[0] if isinstance(key, tuple) else key
+    if isinstance(val, tuple) and len(val) == 2 and val[0] is not None and val[1] is None:
+        return f"{name}[fast_pred_samples]"
+    return name
+
 
 class World:
-    """One real model + the harness' own record of the data it was given."""
+    """One real model + the harness' own record of the data it was given.  `shared`: another World whose argument
+    tensors (train inputs / targets, initial inducing points, fixed noise) this one is constructed from as well."""
 
-    def __init__(self, kind, seed):
+    def __init__(self, kind, seed, shared=None, fixed_noise=False):
         import torch
         self.kind = kind
-        self.g = torch.Generator().manual_seed(seed)
-        torch.manual_seed(seed)
         self.n = 8
         self.xt = torch.tensor([[0.13], [0.47], [0.81]])
-        self.new_data()
-        self.m = build(kind, self.x, self.y)
+        if shared is None:
+            self.g = torch.Generator().manual_seed(seed)
+            torch.manual_seed(seed)
+            self.new_data()
+            self.Z0 = initial_inducing()
+            self.noise0 = (0.05 + 0.1 * torch.rand(self.n, generator=self.g)) if fixed_noise else None
+        else:
+            self.g = shared.g
+            self.x, self.y, self.Z0, self.noise0 = shared.x, shared.y, shared.Z0, shared.noise0
+        self.m = build(kind, self.x, self.y, Z=self.Z0, noise=self.noise0)
         self.m.load_state_dict(new_params(self.m.state_dict(), self.g))
         self.exact = kind in ("exact", "kiss", "sgpr")
         self.sd_keys = sorted(self.m.state_dict().keys())
@@ -248,11 +319,11 @@ class World:
             strat = m.prediction_strategy
             ps = "None" if strat is None else type(strat).__name__
             if strat is not None:
-                memo = {(k[0] if isinstance(k, tuple) else k) for k in getattr(strat, "_memoize_cache", {})}
+                memo = {memo_name(k, v) for k, v in getattr(strat, "_memoize_cache", {}).items()}
             for _, mod in m.named_modules():
                 attrs += [k for k in vars(mod) if k.startswith("_cached_")]
         else:
-            memo = {(k[0] if isinstance(k, tuple) else k) for k in getattr(m.variational_strategy, "_memoize_cache", {})}
+            memo = {memo_name(k, v) for k, v in getattr(m.variational_strategy, "_memoize_cache", {}).items()}
         return (f"ps={ps};memo={','.join(map(str, order(memo)))};attrs={','.join(order(set(attrs)))};"
                 f"tr={1 if m.training else 0}")
 
@@ -264,7 +335,7 @@ class World:
         strat = self.m.prediction_strategy
         out = {}
         for k, v in getattr(strat, "_memoize_cache", {}).items():
-            out.setdefault(k[0] if isinstance(k, tuple) else k, []).append(id(v))
+            out.setdefault(memo_name(k, v), []).append(id(v))
         return (None if strat is None else id(strat)), {k: tuple(sorted(v)) for k, v in out.items()}
 
     def cache_empty(self):
@@ -295,8 +366,10 @@ class World:
         return res
 
     def fresh(self, cell, prior, training):
-        """a freshly constructed model with the same state_dict, data (the harness' record), mode, settings"""
-        f = build(self.kind, self.x, self.y)
+        """a freshly constructed model with the same state_dict, data (the harness' record), mode, settings — built
+        from copies of the argument tensors"""
+        f = build(self.kind, self.x.clone(), self.y.clone(), Z=self.Z0.clone(),
+                  noise=None if self.noise0 is None else self.noise0.clone())
         f.load_state_dict(self.m.state_dict())
         f.train(training)
         with cell_ctx(cell):
@@ -308,7 +381,7 @@ class World:
         import torch
         import gpytorch
         m, k = self.m, op[0]
-        r = {"token": tok(op), "status": "ok", "pred": None, "cell": 0, "prior": False}
+        r = {"token": tok(op), "status": "ok", "pred": None, "cell": 0, "prior": False, "fantasy": None}
         try:
             if k in "PR":
                 r["cell"] = op[1] if k == "P" else 0
@@ -316,7 +389,7 @@ class World:
                 with cell_ctx(r["cell"]):
                     r["pred"] = self._call(m, r["prior"], m.training)
             elif k == "Q":
-                r["cell"] = TAINT[tok(op)]
+                r["cell"] = op[1]
                 with cell_ctx(r["cell"]):
                     self._call(m, False, m.training)     # the answer itself is not part of the property
             elif k == "T":
@@ -369,14 +442,13 @@ class World:
             elif k == "F":
                 fx = torch.rand(2, 1, generator=self.g)
                 fy = torch.randn(2, generator=self.g)
+                fkw = {} if self.noise0 is None else {"noise": torch.full((2,), 0.1)}
+                pair = FANTASY_PAIRS[int(torch.randint(0, len(FANTASY_PAIRS), (1,), generator=self.g))]
                 try:
-                    fm = m.get_fantasy_model(fx, fy)
+                    fm = m.get_fantasy_model(fx, fy, **fkw)
                     r["token"] = "Fo"
-                    # use and then re-parameterise the returned model: nothing of it may be shared with the source
-                    self._take(fm(self.xt))
-                    fm.train()
-                    fm.load_state_dict(new_params(fm.state_dict(), self.g))
                 except Exception as e:  # classify where it was raised
+                    fm = None
                     frames = traceback.extract_tb(e.__traceback__)
                     in_copy = any(os.path.basename(f.filename) == "copy.py" for f in frames)
                     if in_copy:
@@ -387,6 +459,26 @@ class World:
                         r["token"], r["status"] = "Fe", "rej-early:" + type(e).__name__
                     else:
                         r["token"], r["status"] = "Fe", "raised:" + type(e).__name__ + ":" + str(e)[:120]
+                if fm is not None:
+                    # the returned model is a model too: two calls that differ in one setting, the second compared
+                    # with a second fantasy model made from the same source and fantasy data
+                    a, b = pair
+                    fr = {"a": a, "b": b, "diff": None, "error": None}
+                    try:
+                        with cell_ctx(a):
+                            self._take(fm(self.xt))
+                        with cell_ctx(b):
+                            p1 = self._take(fm(self.xt))
+                        fm2 = m.get_fantasy_model(fx, fy, **fkw)
+                        with cell_ctx(b):
+                            p2 = self._take(fm2(self.xt))
+                        fr["diff"] = max(reldiff(p1[0], p2[0]), reldiff(p1[1], p2[1]))
+                    except Exception as e:
+                        fr["error"] = type(e).__name__ + ":" + str(e)[:120]
+                    r["fantasy"] = fr
+                    # … then re-parameterise it: nothing of it may be shared with the source
+                    fm.train()
+                    fm.load_state_dict(new_params(fm.state_dict(), self.g))
             elif k == "B":
                 if m.training:
                     r["status"] = "excluded"
@@ -424,12 +516,25 @@ def memo_names(keys):
 
 
 def reads_of(ps, cell, prior):
-    """memo names an exact-path call reads (mirror of CacheSM.memoReads / varReads; variational memos are never degraded)"""
+    """memo names an exact-path call reads (mirror of CacheSM.accessModel; variational memos are never degraded)"""
     if prior or ps in ("None", "-"):
         return set()
     if ps == "SGPRPredictionStrategy":
         return {"mean_cache", "covar_cache"}
-    return {"mean_cache", "covar_cache"} if cell == 1 else {"mean_cache"}
+    fpv, fps, skip = bool(cell & FPV), bool(cell & FPS), bool(cell & SKIP)
+    if ps == "InterpolatedPredictionStrategy":
+        if (fpv or fps) and not skip:
+            return {"mean_cache", "covar_cache[fast_pred_samples]" if fps else "covar_cache"}
+        return {"mean_cache"}
+    return {"mean_cache", "covar_cache"} if fpv and not skip else {"mean_cache"}
+
+
+class Track:
+    """per-object bookkeeping of a history"""
+
+    def __init__(self):
+        self.tainted, self.abnormal = False, False
+        self.degraded, self.root_degraded = set(), False   # memo names of the live strategy object filled by a degrading call
 
 
 def run_history(kind, tokens, seed, compare_all=False):
@@ -439,11 +544,29 @@ def run_history(kind, tokens, seed, compare_all=False):
     constructed state (no live cache entry anywhere, nothing rejected / raised so far), (ii) it is an
     accuracy-degrading call (Q1 / Q2), or (iii) it is an exact-path call that by the model's read set reads a cache
     entry which an accuracy-degrading call legitimately created (`covar_cache` holding a truncated root is read only
-    under fast_pred_var; a `mean_cache` from a two-iteration CG is read by every posterior call)."""
-    w = World(kind, seed)
-    recs, tainted, abnormal = [], False, False
-    degraded, root_degraded = set(), False      # memo names of the live strategy object filled by a degrading call
+    under fast_pred_var; a `mean_cache` from a two-iteration CG is read by every posterior call).
+
+    Tokens `@A` / `@B`: the following ops are applied to the sibling object A / the first object B.  A is constructed
+    together with B, from the same argument tensors (for kind `exact` and an odd bit 1 of the seed also a shared fixed
+    noise tensor); every record carries the object it belongs to."""
+    two = any(t[0] == "@" for t in tokens)
+    fixed = two and kind == "exact" and bool(seed & 2)
+    if two and seed & 1:      # which of the two is constructed first
+        wa = World(kind, seed, fixed_noise=fixed)
+        wb = World(kind, seed, shared=wa)
+    else:
+        wb = World(kind, seed, fixed_noise=fixed)
+        wa = World(kind, seed, shared=wb) if two else None
+    worlds, tracks = {"A": wa, "B": wb}, {"A": Track(), "B": Track()}
+    cur = "B"
+    recs = []
     for op in parse_ops(tokens):
+        if op[0] == "@":
+            cur = op[1]
+            recs.append({"token": tok(op), "status": "switch", "keys": "", "diff": None, "tol": None, "training": False,
+                         "reused": False, "obj": cur})
+            continue
+        w, tr = worlds[cur], tracks[cur]
         was_training = w.m.training
         before_empty = w.cache_empty()
         sid_before, ids_before = w.memo_ids()
@@ -454,42 +577,44 @@ def run_history(kind, tokens, seed, compare_all=False):
         sid_after, ids_after = w.memo_ids()
         del held   # (kept alive across the op so that ids are not recycled)
         rec = {"token": r["token"], "status": r["status"], "keys": keys, "diff": None, "tol": None,
-               "training": was_training, "reused": not before_empty}
+               "training": was_training, "reused": not before_empty, "obj": cur}
+        if r["fantasy"] is not None:
+            rec["fantasy"] = r["fantasy"]
         is_taint = op[0] == "Q"
-        uses_cg = r["cell"] in (3, 6, 7) and not r["prior"]
+        uses_cg = bool(r["cell"] & NOCHOL) and not r["prior"]
         if r["pred"] is not None and not is_taint:
             reads = reads_of(ps_after, r["cell"], r["prior"]) if not was_training else set()
-            if reads & degraded:
-                rec["skipped_reads_degraded"] = sorted(reads & degraded)
-            elif compare_all or abnormal or not before_empty:
+            if reads & tr.degraded:
+                rec["skipped_reads_degraded"] = sorted(reads & tr.degraded)
+            elif compare_all or tr.abnormal or not before_empty:
                 try:
                     fm, fc = w.fresh(r["cell"], r["prior"], was_training)
                     rec["diff"] = max(reldiff(r["pred"][0], fm), reldiff(r["pred"][1], fc))
                 except Exception as e:   # the model can no longer even be rebuilt from its own state
                     rec["diff"] = float("inf")
                     rec["status"] = "fresh-failed:" + type(e).__name__ + ":" + str(e)[:120]
-                rec["tol"] = TOL_CG if (tainted or uses_cg) else TOL
+                rec["tol"] = TOL_CG if (tr.tainted or uses_cg) else TOL
             else:
                 rec["skipped_fresh_state"] = True
         # ---- bookkeeping of degraded entries (exact GPs with the default / interpolated strategy only: the SGPR
         #      strategy and the variational strategies compute their memo entries in closed form / by direct Cholesky)
         if sid_after is None or sid_after != sid_before:      # no strategy object, or a new one
-            degraded, root_degraded = set(), False
+            tr.degraded, tr.root_degraded = set(), False
         created = {n for n in names_after if sid_after != sid_before or ids_after.get(n) != ids_before.get(n)}
-        degraded = (degraded & names_after) - created
+        tr.degraded = (tr.degraded & names_after) - created
         if ps_after in ("DefaultPredictionStrategy", "InterpolatedPredictionStrategy") and not was_training:
-            if "covar_cache" in created and (r["cell"] == 6 or root_degraded):
-                degraded.add("covar_cache")
+            if "covar_cache" in created and (r["cell"] == Q1 or tr.root_degraded):
+                tr.degraded.add("covar_cache")
                 # the default strategy memoises the root on the train-train operator: it outlives a cleared memo table
-                root_degraded = root_degraded or ps_after == "DefaultPredictionStrategy"
-            if "mean_cache" in created and r["cell"] == 7 and is_taint:
-                degraded.add("mean_cache")
+                tr.root_degraded = tr.root_degraded or ps_after == "DefaultPredictionStrategy"
+            if "mean_cache" in created and r["cell"] == Q2 and is_taint:
+                tr.degraded.add("mean_cache")
         if r["status"] not in ("ok", "excluded", "na") or r["token"] == "Lo":
-            abnormal = True     # (an old-format load leaves no cache but is not the freshly constructed state)
+            tr.abnormal = True     # (an old-format load leaves no cache but is not the freshly constructed state)
         if uses_cg and r["status"] == "ok" and not was_training:
-            tainted = True
+            tr.tainted = True
         if w.cache_empty():
-            tainted = False
+            tr.tainted = False
         recs.append(rec)
     return recs
 
@@ -581,7 +706,41 @@ def with_cells(kinds_seq, rng, counter):
     return out
 
 
-ALL_PREDICTS = ["P0", "P1", "Q1", "P2", "P3", "Q2", "P4", "P5", "P8", "P9"]
+ALL_PREDICTS = ["P0", "P1", "Q1", "P2", "P3", "Q2", "P4", "P5", "P8", "P9", "C2", "C3"]
+
+
+def pair_histories(bases):
+    """`eval; predict[a]; predict[b]` for every base cell b0 and every setting: {a, b} = {b0, b0 with that setting
+    toggled}, both orders — two predictions on one object that differ in exactly one prediction-relevant setting"""
+    seen, out = set(), []
+    for b0 in bases:
+        for i in range(len(SETTING_BITS)):
+            for c1, c2 in ((b0, b0 ^ (1 << i)), (b0 ^ (1 << i), b0)):
+                if (c1, c2) not in seen:
+                    seen.add((c1, c2))
+                    out.append(["E", cell_token(c1), cell_token(c2)])
+    return out
+
+
+def bases_upto(nbits):
+    return [m for m in range(1 << len(SETTING_BITS)) if bin(m).count("1") <= nbits]
+
+
+# what is done to the sibling object A between two groups of predictions of the observed object B
+SIBLING_SEQS = [["T", "S", "S"], ["T", "S", "E", "P0"], ["L"], ["L1"], ["L2"], ["D"], ["D1"], ["D2"], ["E", "P0", "F"],
+                ["E", "P4", "B"], ["E", "P1", "T", "S", "S"], ["T", "S", "L", "E", "P1"], ["E", "C3", "T", "S", "E", "P1"]]
+
+
+def two_object_histories(rng, extra_windows=()):
+    """B (eval mode) fills its caches, the sibling A — constructed from the same argument tensors — goes through a
+    sequence of ops, B predicts again (compared with B's own fresh twin)"""
+    out = []
+    for seq in list(SIBLING_SEQS) + [list(w_) for w_ in extra_windows]:
+        pre = rng.choice([["P1", "P0"], ["C3", "P0"], ["P4", "P1"], ["P0"]])
+        out.append(["E"] + pre + ["@A"] + seq + ["@B", "P0", "P1", "C3"])
+    # … and B in training mode while A is trained (training-mode calls are compared too)
+    out.append(["T", "P0", "@A", "T", "S", "S", "@B", "P0", "E", "P1"])
+    return out
 
 
 def taint_variant(body, rng):
@@ -663,13 +822,14 @@ def long_history(rng, n):
 # ------------------------------------------------------------------------------------------ checking
 
 def pattern(tokens):
-    out = []
+    out, other = [], False
     for t in tokens:
-        name = OPNAMES[t[0]]
-        if t[0] == "P" and t[1] != "0":
-            name += f"[{CELLS[int(t[1])]}]"
-        if t[0] == "Q":
-            name += f"[{CELLS[TAINT[t]]}]"
+        if t[0] == "@":
+            other = t == "@A"
+            continue
+        name = ("other." if other else "") + OPNAMES[t[0]]
+        if t[0] in "PQC" and t != "P0":
+            name += f"[{cell_name(cell_mask(t))}]"
         if t in ("D1", "D2"):
             name += "[targets]" if t == "D1" else "[inputs]"
         if t in ("L1", "L2"):
@@ -701,6 +861,8 @@ def shrink(kind, tokens, seed, idx, training_div, budget=60):
         changed = False
         for i in range(len(cur) - 1):
             cand = cur[:i] + cur[i + 1:]
+            if any(t[0] == "@" for t in cur) and not any(t == "@A" for t in cand):
+                continue      # keep a two-object history a two-object history (same construction, same seed use)
             tries += 1
             if diverges(cand):
                 cur, changed = cand, True
@@ -708,7 +870,7 @@ def shrink(kind, tokens, seed, idx, training_div, budget=60):
     # canonical form: every call (predict under a settings cell / prior-mode call / backward) that can be replaced
     # by a plain predict while the divergence persists, is
     for i, t in enumerate(cur):
-        if (t[0] in "PQRB") and t != "P0" and tries < budget + 30:
+        if (t[0] in "PQCRB") and t != "P0" and tries < budget + 30:
             cand = cur[:i] + ["P0"] + cur[i + 1:]
             tries += 1
             if diverges(cand):
@@ -730,13 +892,16 @@ def canon_model_keys(part):
 def check_results(ctx, jobs, results, label):
     """Compare with the Lean model, report divergences.  jobs: (kind, tokens, seed)."""
     _setup_torch()
-    lines, index = [], []
+    lines, index = [], []          # one driver line per (job, object): each object has its own history from its own construction
     for j, ((kind, tokens, seed), recs) in enumerate(zip(jobs, results)):
         if recs is None or isinstance(recs, dict):
             ctx.broke("correspondence", f"harness-error:{kind}", (recs or {}).get("error", "no result"))
             continue
-        lines.append(kind + " " + " ".join(r["token"] for r in recs))
-        index.append(j)
+        for obj in ("B", "A"):
+            mine = [r for r in recs if r["obj"] == obj and r["status"] != "switch"]
+            if mine or obj == "B":
+                lines.append(kind + " " + " ".join(r["token"] for r in mine))
+                index.append((j, obj))
     replies = [None] * len(lines)
     if lines and "table" not in _state:
         # the translator failed: Gen/CacheTable.lean is not the table of this source tree, the model has nothing to say
@@ -749,67 +914,27 @@ def check_results(ctx, jobs, results, label):
             replies = [None] * len(lines)
     mism = 0
     stats = ctx.notes.setdefault("max_rel_diff", {})
-    for j, rep in zip(index, replies):
+    done = set()
+    for (j, obj), rep, line in zip(index, replies, lines):
         kind, tokens, seed = jobs[j]
         recs = results[j]
-        nontrivial = any(r["diff"] is not None and r["reused"] and not r["training"] for r in recs)
-        ctx.case(f"{kind}:{' '.join(tokens)}", nontrivial=nontrivial,
-                 sample={"kind": kind, "ops": " ".join(tokens), "seed": seed,
-                         "compared_calls": sum(r["diff"] is not None for r in recs)})
-        for r in recs:
-            ctx.count("ops")
-            if r["status"] != "ok":
-                ctx.count("status:" + r["status"].split(":")[0])
-            if r["status"].startswith("raised:"):
-                ctx.broke("correspondence", f"unexpected-raise:{kind}:{OPNAMES[r['token'][0]]}",
-                          f"{kind} `{' '.join(tokens)}` seed {seed}: {r['status']}")
-            if r.get("skipped_fresh_state"):
-                ctx.count("calls_in_fresh_state_not_compared")
-            if r.get("skipped_reads_degraded"):
-                ctx.count("calls_reading_a_degraded_cache_not_compared")
-            if r["token"][0] == "Q":
-                ctx.count("degrading_calls")
-            if r["diff"] is not None:
-                ctx.count("calls_compared_with_fresh_model")
-                ctx.count("calls_compared_training_mode" if r["training"] else "calls_compared_eval_mode")
-                if r["diff"] <= r["tol"]:
-                    key = f"{kind}/{'cg' if r['tol'] == TOL_CG else 'exact'}"
-                    stats[key] = max(stats.get(key, 0.0), r["diff"])
-                    if r["tol"] == TOL_CG and r["diff"] > TOL:
-                        ctx.count("cg_slack_used")
-        # (b) the property itself: compare with the freshly constructed model
-        i = first_divergence(recs)
-        if i is not None and len([f for f in ctx.failures]) < 40:
-            training_div = recs[i]["training"]
-            small = shrink(kind, tokens, seed, i, training_div)
-            pre = "stale-train" if training_div else "stale"
-            final = run_history(kind, small, seed)
-            if "P3" in small and final[-1]["diff"] is not None and final[-1]["diff"] < CG_ONLY_MAX:
-                # the shrinker replaces every call by a plain predict when the divergence survives that: it did not,
-                # so the divergence exists only through linear_operator's CG
-                ctx.count("cg_assumption_failures")
-                ctx.assumption(f"ASSUMPTION linear_operator CG inaccuracy: {kind} `{pattern(small)}` seed {seed} differs by "
-                               f"{final[-1]['diff']:.3g} only with max_cholesky_size(0)")
-            else:
-                ctx.fail(f"{pre}:{kind}:{pattern(small)}",
-                         f"{kind} model, history `{pattern(small)}`: the last call differs from a freshly constructed model with "
-                         f"the same state_dict / data / settings by {final[-1]['diff']:.3g} (relative; tolerance {final[-1]['tol']:g})"
-                         + (f" [{final[-1]['status']}]" if final[-1]["status"] != "ok" else ""),
-                         {"kind": kind, "seed": seed, "ops": small, "original_ops": tokens, "diverged_at": i,
-                          "rel_diff": final[-1]["diff"], "keys_after_each_op": [r["keys"] for r in final]})
+        if j not in done:
+            done.add(j)
+            mism += check_job(ctx, kind, tokens, seed, recs, stats)
         # (a) cache keys vs the Lean model
         if rep is None:
             continue
-        parts = rep.split(" | ")
-        if len(parts) != len(recs):
-            ctx.broke("correspondence", f"driver-reply:{kind}", f"`{lines[index.index(j)]}` -> {rep[:300]}")
+        mine = [r for r in recs if r["obj"] == obj and r["status"] != "switch"]
+        parts = rep.split(" | ") if mine else []
+        if len(parts) != len(mine):
+            ctx.broke("correspondence", f"driver-reply:{kind}", f"`{line}` -> {rep[:300]}")
             continue
-        for r, part in zip(recs, parts):
+        for r, part in zip(mine, parts):
             if canon_model_keys(part) != r["keys"]:
                 mism += 1
                 if mism <= 6:
                     ctx.broke("correspondence", f"cache-keys:{kind}:{OPNAMES[r['token'][0]]}",
-                              f"{kind} `{' '.join(x['token'] for x in recs)}` seed {seed}\n after {r['token']}: real  {r['keys']}\n"
+                              f"{kind} `{' '.join(tokens)}` (object {obj}: `{line}`) seed {seed}\n after {r['token']}: real  {r['keys']}\n"
                               f"              model {canon_model_keys(part)}")
                 break
             if r["token"][0] == "F":
@@ -819,13 +944,85 @@ def check_results(ctx, jobs, results, label):
                     mism += 1
                     if mism <= 6:
                         ctx.broke("correspondence", f"fantasy-acceptance:{kind}",
-                                  f"{kind} `{' '.join(x['token'] for x in recs)}`: real {r['status']}, model expects {exp}")
+                                  f"{kind} `{line}`: real {r['status']}, model expects {exp}")
                 if r["token"] == "Fc":
                     ctx.count("fantasy_raised_inside_deepcopy")
             if ":STALE" in part:
                 ctx.count("model_predicts_stale")
     ctx.count("driver_lines_" + label, len(lines))
     ctx.count("model_key_mismatches", mism)
+
+
+def check_job(ctx, kind, tokens, seed, recs, stats):
+    """(b) the property itself on one history: every compared call vs the freshly constructed model"""
+    two = any(t[0] == "@" for t in tokens)
+    nontrivial = any(r["diff"] is not None and r["reused"] and not r["training"] for r in recs)
+    ctx.case(f"{kind}:{' '.join(tokens)}", nontrivial=nontrivial,
+             sample={"kind": kind, "ops": " ".join(tokens), "seed": seed,
+                     "compared_calls": sum(r["diff"] is not None for r in recs)})
+    if two:
+        ctx.count("two_object_histories")
+    elif len(tokens) == 3 and tokens[0] == "E" and all(t[0] in "PC" for t in tokens[1:]):
+        ctx.count("settings_pair_histories")
+    for n, r in enumerate(recs):
+        if r["status"] == "switch":
+            continue
+        ctx.count("ops")
+        if r["status"] != "ok":
+            ctx.count("status:" + r["status"].split(":")[0])
+        if r["status"].startswith("raised:"):
+            ctx.broke("correspondence", f"unexpected-raise:{kind}:{OPNAMES[r['token'][0]]}",
+                      f"{kind} `{' '.join(tokens)}` seed {seed}: {r['status']}")
+        if r.get("skipped_fresh_state"):
+            ctx.count("calls_in_fresh_state_not_compared")
+        if r.get("skipped_reads_degraded"):
+            ctx.count("calls_reading_a_degraded_cache_not_compared")
+        if r["token"][0] == "Q":
+            ctx.count("degrading_calls")
+        if r["diff"] is not None:
+            ctx.count("calls_compared_with_fresh_model")
+            ctx.count("calls_compared_training_mode" if r["training"] else "calls_compared_eval_mode")
+            if two and r["obj"] == "B":
+                ctx.count("calls_compared_after_sibling_ops")
+            if r["diff"] <= r["tol"]:
+                key = f"{kind}/{'cg' if r['tol'] == TOL_CG else 'exact'}"
+                stats[key] = max(stats.get(key, 0.0), r["diff"])
+                if r["tol"] == TOL_CG and r["diff"] > TOL:
+                    ctx.count("cg_slack_used")
+        # the model returned by get_fantasy_model, called under two settings cells, vs a second fantasy model
+        f = r.get("fantasy")
+        if f is not None:
+            ctx.count("fantasy_models_called_under_a_settings_pair")
+            bad = f["error"] is not None or not (f["diff"] <= TOL)
+            if bad and len(ctx.failures) < 40:
+                pat = f"predict[{cell_name(f['a'])}]>predict[{cell_name(f['b'])}]"
+                what = f["error"] if f["error"] is not None else f"differs by {f['diff']:.3g} (relative; tolerance {TOL:g})"
+                ctx.fail(f"stale-fantasy:{kind}:{pat}",
+                         f"{kind} model, history `{pattern(tokens[:n + 1])}`: the model returned by get_fantasy_model, called as `{pat}`, "
+                         f"vs a second fantasy model made from the same source called under the second cell only: {what}",
+                         {"kind": kind, "seed": seed, "ops": tokens[:n + 1], "fantasy_pair": [f["a"], f["b"]], "what": what})
+    i = first_divergence(recs)
+    if i is not None and len([f for f in ctx.failures]) < 40:
+        training_div = recs[i]["training"]
+        small = shrink(kind, tokens, seed, i, training_div)
+        pre = ("stale-train" if training_div else "stale") + ("-shared" if any(t == "@A" for t in small) else "")
+        final = run_history(kind, small, seed)
+        uses_cg = any(t[0] in "PC" and cell_mask(t) & NOCHOL for t in small)
+        if uses_cg and final[-1]["diff"] is not None and final[-1]["diff"] < CG_ONLY_MAX:
+            # the shrinker replaces every call by a plain predict when the divergence survives that: it did not,
+            # so the divergence exists only through linear_operator's CG
+            ctx.count("cg_assumption_failures")
+            ctx.assumption(f"ASSUMPTION linear_operator CG inaccuracy: {kind} `{pattern(small)}` seed {seed} differs by "
+                           f"{final[-1]['diff']:.3g} only with max_cholesky_size(0)")
+        else:
+            ctx.fail(f"{pre}:{kind}:{pattern(small)}",
+                     f"{kind} model, history `{pattern(small)}`: the last call differs from a freshly constructed model with "
+                     f"the same state_dict / data / settings by {final[-1]['diff']:.3g} (relative; tolerance {final[-1]['tol']:g})"
+                     + (" [`other.` = applied to a sibling object constructed from the same argument tensors]" if "-shared" in pre else "")
+                     + (f" [{final[-1]['status']}]" if final[-1]["status"] != "ok" else ""),
+                     {"kind": kind, "seed": seed, "ops": small, "original_ops": tokens, "diverged_at": i,
+                      "rel_diff": final[-1]["diff"], "keys_after_each_op": [r["keys"] for r in final]})
+    return 0
 
 
 def model_exhaustive(ctx, depth_ops, depth_full):
@@ -848,14 +1045,14 @@ def collect_exhaustive(ctx, p, depth_ops, depth_full):
         return
     total = 0
     for n, l in enumerate(lines):
-        k, what = KINDS[n // 2], (f"9 op kinds, length <= {depth_ops}" if n % 2 == 0 else f"22 symbols, length <= {depth_full}")
+        k, what = KINDS[n // 2], (f"9 op kinds, length <= {depth_ops}" if n % 2 == 0 else f"24 symbols, length <= {depth_full}")
         f = dict(x.split("=", 1) for x in l.split(";"))
         total += int(f["nodes"])
         ctx.count("lean_model_states_checked", int(f["nodes"]))
         ctx.count("lean_model_calls_checked", int(f["answers"]))
         if int(f["bad"]) > 0:
             ctx.broke("model", f"lean-model-invariant:{k}", f"{what}: {f['bad']} bad states/answers; first: {f['first']}")
-    ctx.notes["lean_model_exhaustive"] = {"depth_9_ops": depth_ops, "depth_22_symbols": depth_full, "states": total}
+    ctx.notes["lean_model_exhaustive"] = {"depth_9_ops": depth_ops, "depth_24_symbols": depth_full, "states": total}
 
 
 def correspondence(ctx):
@@ -870,6 +1067,17 @@ def correspondence(ctx):
                                         if all(x in OPKINDS for x in t)})
     for kind in KINDS:
         for h in hists:
+            jobs.append((kind, h, rng.getrandbits(20)))
+    # two predictions on one object that differ in exactly one prediction-relevant setting, both orders
+    pairs = pair_histories([0] + [1 << i for i in range(len(SETTING_BITS))] if quick else bases_upto(3))
+    ctx.notes["settings_pairs_per_kind"] = len(pairs)
+    for kind in KINDS:
+        for h in pairs:
+            jobs.append((kind, h, rng.getrandbits(20)))
+    # a sibling object constructed from the same argument tensors goes through ops; the observed object must not notice
+    for kind in KINDS:
+        extra = [] if quick else [h[1:10] for h in hists[::3]]
+        for h in two_object_histories(rng, extra):
             jobs.append((kind, h, rng.getrandbits(20)))
     if not quick:
         for kind in KINDS:
@@ -916,6 +1124,12 @@ def search(ctx, broken):
                 for pre in ([], ["P0"], ["P5"]):
                     toks = ["E"] + pre + [q] + mid
                     jobs.append((kind, toks + ["P0", "P1", "P0"], rng.getrandbits(20)))
+    # two predictions that differ in one setting (bases of <= 2 settings); sibling objects built from the same tensors
+    for kind in KINDS:
+        for h in pair_histories(bases_upto(2)):
+            jobs.append((kind, h, rng.getrandbits(20)))
+        for h in two_object_histories(rng):
+            jobs.append((kind, h, rng.getrandbits(20)))
     # training-mode staleness: train; call; step; call
     for kind in KINDS:
         for mid in (["S"], ["S", "S"], ["P0", "S"], ["S", "P0", "S"]):
@@ -941,6 +1155,12 @@ def replay(ctx, payload):
     _setup_torch()
     case = payload["case"]
     recs = run_history(case["kind"], case["ops"], int(case["seed"]))
+    bad_fantasy = False
     for r in recs:
-        print(f"  {r['token']:3s} {r['status']:22s} {r['keys']}" + (f"  rel.diff vs fresh = {r['diff']:.3g}" if r["diff"] is not None else ""))
-    return first_divergence(recs) is None
+        print(f"  {r['obj']} {r['token']:4s} {r['status']:22s} {r['keys']}" + (f"  rel.diff vs fresh = {r['diff']:.3g}" if r["diff"] is not None else ""))
+        f = r.get("fantasy")
+        if f is not None:
+            print(f"         fantasy model under predict[{cell_name(f['a'])}]>predict[{cell_name(f['b'])}] vs a second fantasy model: "
+                  + (f["error"] if f["error"] is not None else f"rel.diff = {f['diff']:.3g}"))
+            bad_fantasy = bad_fantasy or f["error"] is not None or not (f["diff"] <= TOL)
+    return first_divergence(recs) is None and not bad_fantasy
